@@ -948,6 +948,40 @@ def evaluate(rep, cases, proofs_ok, want_exhaustive=True):
     return failures, corr_breaks
 
 
+def reported_tie(rep, cases, limit=600):
+    """'if nothing applies the conflict is REPORTED (LR) or KEPT (GLR)': the cells are judged on the table dump (hook), the
+    reporting itself happens in `generate_parser` (generator/mod.rs) after the table is built. The real
+    `Settings::process_grammar` (vdyn job C) is run on the same text and settings: it must return the conflicts error
+    exactly when the table under test has a cell with more than one action in LR mode, and generate a parser otherwise."""
+    sel = [c for c in cases if c.dump is not None and getattr(c, "text", None)]
+    sel.sort(key=lambda c: (c.dump["conflicts"] == 0, len(c.text)))
+    half = limit // 2
+    sel = sel[:half] + [c for c in sel[half:] if c.dump["conflicts"] == 0][:half]
+    if not sel:
+        return
+    groups = [["C G F " + " ".join(c.settings()) + " " + hx(c.text)] for c in sel]
+    answers = run_vdyn(groups, tag="c05-report")
+    bad = []
+    for c, a in zip(sel, answers):
+        a = a[0]
+        want_err = c.algo == "LR" and c.dump["conflicts"] > 0
+        got_err = a.startswith("compile err conflicts")
+        got_ok = a.startswith("compile ok")
+        rep.count("reported_tie:" + ("conflicts-reported" if got_err else "generated" if got_ok else a.split(" ")[1] if " " in a else a))
+        if not (got_err or got_ok):
+            continue            # other diagnostics / panics: C16's matter
+        if want_err != got_err:
+            bad.append((c, a))
+    rep.counters["reported_tie_compared"] = len(sel)
+    rep.counters["reported_tie_failures"] = len(bad)
+    for c, a in sorted(bad, key=lambda x: len(x[0].text))[:max(0, 3 - len(rep.violations))]:
+        rep.violation(dict(c.describe(), kind="impl!=oracle", tag="reported",
+                           why=("the table has %d unresolved conflict(s) in LR mode but the compiler generated a parser instead of reporting them"
+                                % c.dump["conflicts"]) if c.algo == "LR" and c.dump["conflicts"] > 0 else
+                               "the compiler reports conflicts although the table under test has none (LR) / conflicts must be kept (GLR)",
+                           impl=a[:200]))
+
+
 def run(rep, tier, seed):
     rng = random.Random(seed)
     proofs_ok = lean_obligations(rep, PROP_MODULE)
@@ -970,6 +1004,7 @@ def run(rep, tier, seed):
         "of EVERY state is compared (model) and judged (documented rule); distinct = cells with >= 2 candidates. "
         "ops: expression grammars x all priority/associativity assignments x random operator strings vs precedence climbing")
     failures, corr = evaluate(rep, cases, proofs_ok)
+    reported_tie(rep, cases)
     ofails = run_ops(rep, ops_cases(rng, tier))
     rep.counters["ops_failures"] = len(ofails)
     for payload, _ in sorted(ofails, key=lambda f: (len(f[0]["grammar"]), len(f[0].get("input", ""))))[:max(0, 3 - len(rep.violations))]:
@@ -1005,6 +1040,7 @@ def replay(rep, path):
     if not driver_wired(rep, [c]):
         return
     evaluate(rep, [c], True, want_exhaustive=False)
+    reported_tie(rep, [c])
 
 
 def parse_annotated(text):
